@@ -74,6 +74,25 @@ def one(spec, R, batch, stats, considered_mode):
 
 
 W_FIXED = [
+    {"id": "w-fractions", "start": "E", "classes": [
+        {"name": "E", "parent": "", "abstract": True, "fields": []},
+        {"name": "Op", "parent": "E", "abstract": True, "fields": [], "style": "decorator", "weight": 2},
+        {"name": "Lit", "parent": "E", "abstract": False, "fields": [], "weight": 1},
+        {"name": "Var", "parent": "E", "abstract": False, "fields": []},
+        {"name": "Add", "parent": "Op", "abstract": False, "fields": [("l", ("sym", "E"))], "weight": 0.1},
+        {"name": "Mul", "parent": "Op", "abstract": False, "fields": [("l", ("sym", "E"))], "weight": 0.3},
+        {"name": "Off", "parent": "Op", "abstract": False, "fields": [("l", ("sym", "E"))], "weight": 0}]},
+    {"id": "w-single", "start": "E", "classes": [
+        {"name": "E", "parent": "", "abstract": True, "fields": []},
+        {"name": "U", "parent": "", "abstract": True, "fields": []},
+        {"name": "Leaf", "parent": "E", "abstract": False, "fields": [("u", ("sym", "U"))]},
+        {"name": "Only", "parent": "U", "abstract": False, "fields": [], "weight": 0.25}]},
+    {"id": "w-deepest", "start": "E", "classes": [
+        {"name": "E", "parent": "", "abstract": True, "fields": []},
+        {"name": "ZeroLeaf", "parent": "E", "abstract": False, "fields": [], "weight": 0},
+        {"name": "Mid", "parent": "", "abstract": False, "fields": [("v", ("ann", ("base", "int"), ("IntRange", 0, 1)))]},
+        {"name": "DeepLeaf", "parent": "E", "abstract": False, "fields": [("m", ("sym", "Mid")), ("n", ("sym", "Mid"))], "weight": 3},
+        {"name": "Rec", "parent": "E", "abstract": False, "fields": [("e", ("sym", "E"))], "weight": 2}]},
     {"id": "w-flat", "start": "E", "classes": [
         {"name": "E", "parent": "", "abstract": True, "fields": []},
         {"name": "Zero", "parent": "E", "abstract": False, "fields": [], "weight": 0},
